@@ -50,7 +50,7 @@ theorem mem_setInsert (l : List Nat) (a x : Nat) : x ∈ (setInsert l a).1 ↔ x
 
 /-! ### `swapRemove` -/
 
-theorem idxOf?_split {l₁ l₂ : List Nat} {a : Nat} (h : a ∉ l₁) :
+theorem g_idxOf?_split {l₁ l₂ : List Nat} {a : Nat} (h : a ∉ l₁) :
     (l₁ ++ a :: l₂).idxOf? a = some l₁.length := by
   unfold List.idxOf?
   rw [List.findIdx?_append]
@@ -66,14 +66,14 @@ theorem idxOf?_split {l₁ l₂ : List Nat} {a : Nat} (h : a ∉ l₁) :
 theorem swapRemove_split_last {l₁ : List Nat} {a : Nat} (h : a ∉ l₁) :
     swapRemove (l₁ ++ [a]) a = (l₁, true) := by
   unfold swapRemove
-  rw [idxOf?_split h]
+  rw [g_idxOf?_split h]
   simp
 
 /-- the removed element is not last: the last element takes its slot -/
 theorem swapRemove_split_mid {l₁ m : List Nat} {a z : Nat} (h : a ∉ l₁) :
     swapRemove (l₁ ++ a :: (m ++ [z])) a = (l₁ ++ z :: m, true) := by
   unfold swapRemove
-  rw [idxOf?_split h]
+  rw [g_idxOf?_split h]
   have hlast : (l₁ ++ a :: (m ++ [z])).getLast? = some z := by
     rw [show l₁ ++ a :: (m ++ [z]) = (l₁ ++ a :: m) ++ [z] by simp]
     exact List.getLast?_concat
@@ -104,34 +104,34 @@ theorem swapRemove_mem {l : List Nat} {a : Nat} (h : a ∈ l) :
     exact (List.perm_append_singleton z m).symm
 
 /-- **swapRemove, flag**: the flag says whether the element was a member -/
-theorem swapRemove_snd (l : List Nat) (a : Nat) : (swapRemove l a).2 = true ↔ a ∈ l := by
+theorem nd_swapRemove_snd (l : List Nat) (a : Nat) : (swapRemove l a).2 = true ↔ a ∈ l := by
   by_cases h : a ∈ l
   · exact ⟨fun _ => h, fun _ => (swapRemove_mem h).1⟩
   · rw [swapRemove_not_mem h]; simp [h]
 
-theorem swapRemove_perm (l : List Nat) (a : Nat) : (swapRemove l a).1.Perm (l.erase a) := by
+theorem nd_swapRemove_perm (l : List Nat) (a : Nat) : (swapRemove l a).1.Perm (l.erase a) := by
   by_cases h : a ∈ l
   · exact (swapRemove_mem h).2
   · rw [swapRemove_not_mem h, List.erase_of_not_mem h]
 
-theorem swapRemove_nodup {l : List Nat} (a : Nat) (h : l.Nodup) : (swapRemove l a).1.Nodup :=
-  (swapRemove_perm l a).nodup_iff.mpr (h.erase a)
+theorem nd_swapRemove_nodup {l : List Nat} (a : Nat) (h : l.Nodup) : (swapRemove l a).1.Nodup :=
+  (nd_swapRemove_perm l a).nodup_iff.mpr (h.erase a)
 
-theorem mem_swapRemove {l : List Nat} (a x : Nat) (h : l.Nodup) :
+theorem g_mem_swapRemove {l : List Nat} (a x : Nat) (h : l.Nodup) :
     x ∈ (swapRemove l a).1 ↔ x ∈ l ∧ x ≠ a := by
-  rw [(swapRemove_perm l a).mem_iff, h.mem_erase_iff]
+  rw [(nd_swapRemove_perm l a).mem_iff, h.mem_erase_iff]
   exact And.comm
 
 theorem length_swapRemove {l : List Nat} {a : Nat} (h : a ∈ l) :
     (swapRemove l a).1.length = l.length - 1 := by
-  rw [(swapRemove_perm l a).length_eq, List.length_erase_of_mem h]
+  rw [(nd_swapRemove_perm l a).length_eq, List.length_erase_of_mem h]
 
 theorem not_mem_swapRemove_self {l : List Nat} (a : Nat) (h : l.Nodup) : a ∉ (swapRemove l a).1 := by
-  rw [mem_swapRemove a a h]; simp
+  rw [g_mem_swapRemove a a h]; simp
 
 /-! ### the draw loop body -/
 
-theorem Tx.draw_s (hash : List Nat → List Nat) (t : Tx) (rng : Rng) : (t.draw hash rng).2.2.s = t.s := by
+theorem Tx.g_draw_s (hash : List Nat → List Nat) (t : Tx) (rng : Rng) : (t.draw hash rng).2.2.s = t.s := by
   unfold Tx.draw
   simp only
   split <;> rfl
@@ -213,7 +213,7 @@ theorem nftBody_cont (hash : List Nat → List Nat) (total : Nat) (x x' : NSt) (
     refine ⟨rfl, ?_, rfl, rfl, ?_, rfl⟩
     · show (setInsert x.winners w).1 = x.winners ++ [w]
       rw [setInsert_new hw]
-    · exact Tx.draw_s hash x.tx x.rng
+    · exact Tx.g_draw_s hash x.tx x.rng
 
 /-- the body never fails on a consistent state -/
 theorem nftBody_no_error (hash : List Nat → List Nat) (total : Nat) (x : NSt) (hx : DrawOk x) :
@@ -250,7 +250,7 @@ theorem nftBody_cont_ok (hash : List Nat → List Nat) (total : Nat) (x x' : NSt
   have hpos : 0 < x.payers.length := List.length_pos_of_mem hmem
   have hnw : w ∉ x.winners := hx.disj w hmem
   refine ⟨⟨?_, ?_, ?_, ?_, ?_⟩, w, hmem, hget, ?_, hw, by omega, by rw [hw]; simp, ?_, hts⟩
-  · rw [hp]; exact swapRemove_nodup w hx.nodupP
+  · rw [hp]; exact nd_swapRemove_nodup w hx.nodupP
   · rw [hw, List.nodup_append]
     refine ⟨hx.nodupW, by simp, ?_⟩
     intro a ha b hb
@@ -258,15 +258,15 @@ theorem nftBody_cont_ok (hash : List Nat → List Nat) (total : Nat) (x x' : NSt
     subst hb
     intro hab; subst hab; exact hnw ha
   · intro a ha
-    rw [hp, mem_swapRemove w a hx.nodupP] at ha
+    rw [hp, g_mem_swapRemove w a hx.nodupP] at ha
     rw [hw]
     simp only [List.mem_append, List.mem_singleton, not_or]
     exact ⟨hx.disj a ha.1, ha.2⟩
   · rw [hl, hlen, hx.left]
   · rw [hs, hw, hx.sel]; simp
-  · rw [hp]; exact swapRemove_perm _ _
+  · rw [hp]; exact nd_swapRemove_perm _ _
   · intro a
-    rw [hp, mem_swapRemove w a hx.nodupP, hw]
+    rw [hp, g_mem_swapRemove w a hx.nodupP, hw]
     simp only [List.mem_append, List.mem_singleton]
     constructor
     · rintro (⟨h, _⟩ | h | h)
@@ -356,7 +356,7 @@ theorem runWhile_DrawRel {hash : List Nat → List Nat} {total : Nat} {P0 W0 : L
           | succ k => rw [runWhile_cont_succ hb] at h; exact ih _ _ _ _ _ h hr1
 
 /-- a completed run ends in a state in which the body says STOP -/
-theorem runWhile_completed_stop {σ : Type} (body : σ → Res (σ × Bool)) :
+theorem g_runWhile_completed_stop {σ : Type} (body : σ → Res (σ × Bool)) :
     ∀ (f : Nat) (b : Option Nat) (x x' : σ) (b' : Option Nat),
       runWhile body f b x = .ok (x', b', .completed) → ∃ y, body y = .ok (x', false) := by
   intro f
@@ -396,7 +396,7 @@ theorem draw_completed {hash : List Nat → List Nat} {total : Nat} {P0 W0 : Lis
   refine ⟨hr', ?_, hr'.ok.nodupW, fun a ha => (hr'.union a).mp (Or.inr ha)⟩
   -- the last body call said STOP on `x'` itself
   have hstop : x'.usersLeft = 0 ∨ x'.selected = total := by
-    obtain ⟨y, hy⟩ := runWhile_completed_stop _ f b x x' b' h
+    obtain ⟨y, hy⟩ := g_runWhile_completed_stop _ f b x x' b' h
     unfold nftBody at hy
     by_cases hc : y.usersLeft = 0 ∨ y.selected = total
     · have : (y.usersLeft = 0 || y.selected = total) = true := by simpa using hc
@@ -423,10 +423,10 @@ structure NftOk (s : State) : Prop where
   nodupW : s.nftWinners.Nodup
   disj : ∀ a, a ∈ s.payers → a ∉ s.nftWinners
 
-theorem Tx.freshRng_s (t : Tx) : t.freshRng.2.s = t.s := by
+theorem Tx.g_freshRng_s (t : Tx) : t.freshRng.2.s = t.s := by
   unfold Tx.freshRng; split <;> rfl
 
-theorem Tx.freshRng_o (t : Tx) : t.freshRng.2.o = t.o := by
+theorem Tx.g_freshRng_o (t : Tx) : t.freshRng.2.o = t.o := by
   unfold Tx.freshRng; split <;> rfl
 
 /-- the state a draw call leaves, given the lists it reached -/
@@ -476,7 +476,7 @@ theorem nftSubstep_spec {hash : List Nat → List Nat} {t t' : Tx} {rng rng' : R
       hr.pre, fun _ => hc.2.1⟩
     simp only [drawState, Tx.setS, hxs]
 
-def selDone (t1 : Tx) : Tx :=
+def g_selDone (t1 : Tx) : Tx :=
   { t1 with s := { t1.s with flags := { t1.s.flags with additional := true } },
             o := { t1.o with ret := [0] } }
 
@@ -484,7 +484,7 @@ def selMore (t1 : Tx) (rng' : Rng) : Tx :=
   { t1 with s := { t1.s with op := .additional (.nft rng') }, o := { t1.o with ret := [1] } }
 
 /-- acceptance conditions and bookkeeping of `selectNft` around the draw call -/
-theorem selectNft_inv {hash : List Nat → List Nat} {t t' : Tx} {e : Env}
+theorem g_selectNft_inv {hash : List Nat → List Nat} {t t' : Tx} {e : Env}
     (h : selectNft hash t e = .ok t') :
     t.s.stage e = .winnerSelection ∧ t.s.flags.selected = true ∧ t.s.flags.additional = false ∧
     ∃ (t0 t1 : Tx) (rng rng' : Rng) (st : LoopStatus),
@@ -500,7 +500,7 @@ theorem selectNft_inv {hash : List Nat → List Nat} {t t' : Tx} {e : Env}
   have fin : ∀ (t0 t1 : Tx) (rng rng' : Rng) (st : LoopStatus), t0.s = t.s →
       nftSubstep hash t0 rng = .ok (t1, rng', st) →
       (match st with
-        | .completed => (pure (selDone t1) : Res Tx)
+        | .completed => (pure (g_selDone t1) : Res Tx)
         | _ => pure (selMore t1 rng')) = .ok t' →
       ∃ (t0 t1 : Tx) (rng rng' : Rng) (st : LoopStatus),
         t0.s = t.s ∧ nftSubstep hash t0 rng = .ok (t1, rng', st) ∧
@@ -525,7 +525,7 @@ theorem selectNft_inv {hash : List Nat → List Nat} {t t' : Tx} {e : Env}
   split at h
   · simp only [bind_ok_iff, pure_ok_iff, Prod.exists, Prod.mk.injEq] at h
     obtain ⟨rng, t0, ⟨hr, ht0⟩, t1, rng', st, hsub, hfin⟩ := h
-    exact fin t0 t1 rng rng' st (by rw [← ht0]; exact Tx.freshRng_s t) hsub hfin
+    exact fin t0 t1 rng rng' st (by rw [← ht0]; exact Tx.g_freshRng_s t) hsub hfin
   · simp only [bind_ok_iff, pure_ok_iff, Prod.exists, Prod.mk.injEq] at h
     obtain ⟨rng, t0, ⟨hr, ht0⟩, t1, rng', st, hsub, hfin⟩ := h
     exact fin t0 t1 rng rng' st (by rw [← ht0]) hsub hfin
@@ -611,16 +611,16 @@ theorem claimNft_ok_iff (t : Tx) (e : Env) (t' : Tx) :
   rw [claimNft_eq]
   unfold claimNftResult nftCategory
   by_cases hw : e.caller ∈ t.s.nftWinners
-  · have h1 : (swapRemove t.s.nftWinners e.caller).2 = true := (swapRemove_snd _ _).mpr hw
+  · have h1 : (swapRemove t.s.nftWinners e.caller).2 = true := (nd_swapRemove_snd _ _).mpr hw
     simp only [h1, if_true, hw, bind_ok_iff, req_ok_iff, exists_const, Tx.setS,
       show ¬ ((1 : Nat) = 2) by decide, if_false, pure_ok_iff, false_implies, true_and]
     exact ⟨fun ⟨a, b⟩ => ⟨a, b.symm⟩, fun ⟨a, b⟩ => ⟨a, b.symm⟩⟩
   · have h1 : (swapRemove t.s.nftWinners e.caller).2 = false := by
       cases h : (swapRemove t.s.nftWinners e.caller).2
       · rfl
-      · exact absurd ((swapRemove_snd _ _).mp h) hw
+      · exact absurd ((nd_swapRemove_snd _ _).mp h) hw
     by_cases hp : e.caller ∈ t.s.payers
-    · have h2 : (swapRemove t.s.payers e.caller).2 = true := (swapRemove_snd _ _).mpr hp
+    · have h2 : (swapRemove t.s.payers e.caller).2 = true := (nd_swapRemove_snd _ _).mpr hp
       simp only [h1, Bool.false_eq_true, if_false, hw, hp, Tx.setS, h2, if_true, bind_ok_iff,
         req_ok_iff, exists_const, send_ok_iff, true_implies]
       constructor
@@ -631,7 +631,7 @@ theorem claimNft_ok_iff (t : Tx) (e : Env) (t' : Tx) :
     · have h2 : (swapRemove t.s.payers e.caller).2 = false := by
         cases h : (swapRemove t.s.payers e.caller).2
         · rfl
-        · exact absurd ((swapRemove_snd _ _).mp h) hp
+        · exact absurd ((nd_swapRemove_snd _ _).mp h) hp
       simp only [h1, Bool.false_eq_true, if_false, hw, hp, Tx.setS, h2, bind_ok_iff,
         req_ok_iff, exists_const, show ¬ ((3 : Nat) = 2) by decide, pure_ok_iff, false_implies,
         true_and]
@@ -684,15 +684,15 @@ theorem claimNftResult_category (t : Tx) (e : Env) (h : NftOk t.s) :
   have hok : NftOk (claimNftResult t e).s := by
     refine ⟨?_, ?_, ?_⟩
     · rw [hP]; split
-      · exact swapRemove_nodup _ h.nodupP
+      · exact nd_swapRemove_nodup _ h.nodupP
       · exact h.nodupP
-    · rw [hW]; exact swapRemove_nodup _ h.nodupW
+    · rw [hW]; exact nd_swapRemove_nodup _ h.nodupW
     · intro a ha
-      rw [hW, mem_swapRemove _ _ h.nodupW]
+      rw [hW, g_mem_swapRemove _ _ h.nodupW]
       rw [hP] at ha
       have ha' : a ∈ t.s.payers := by
         split at ha
-        · exact ((mem_swapRemove _ _ h.nodupP).mp ha).1
+        · exact ((g_mem_swapRemove _ _ h.nodupP).mp ha).1
         · exact ha
       intro hcon
       exact h.disj a ha' hcon.1
@@ -843,7 +843,7 @@ theorem refundNftMany_recon : ∀ (l : List Nat) {t t' : Tx}, refundNftMany l t 
       · rename_i t1 h1
         rw [send_ok_iff] at h1
         obtain ⟨hb, rfl⟩ := h1
-        have hu : u ∈ t.s.payers := (swapRemove_snd _ _).mp hdid
+        have hu : u ∈ t.s.payers := (nd_swapRemove_snd _ _).mp hdid
         have hlen := length_swapRemove hu
         have hpos : 0 < t.s.payers.length := List.length_pos_of_mem hu
         obtain ⟨a1, a2, a3, a4, a5, a6, a7⟩ := refundNftMany_recon rest h
